@@ -57,6 +57,11 @@ def handleC12 (j : J) : J :=
       | _, _ => false
     let erased := (SdlPrintTA.printedDocA s c apps).map SdlPrintTA.eraseCustom
     let blockOnly := SdlPrintTA.needsSchemaBlockA s c apps && !needsSchemaBlock s
+    -- `BuildIgnoresCustomStatement` evaluated: building the denoted document and building its erasure agree
+    let buildErased := match build (SdlPrintTA.printedDocA s c apps), build erased with
+      | .ok a, .ok b => a == b
+      | .error _, .error _ => true
+      | _, _ => false
     .obj [("text", .str (stringOfText t)), ("same", .bool (stringOfText t == first)),
           ("wf", .bool (SdlPrintTA.printTextWFA c s apps)), ("parses", .bool parses),
           ("kept", .num (((SdlPrintTA.printedDocA s c apps).map (fun d => match d with
@@ -65,7 +70,7 @@ def handleC12 (j : J) : J :=
               | .schema sd => sd.dirs.length
               | .directive d => (d.args.map (·.dirs.length)).sum
               | _ => 0)).sum : Nat)),
-          ("blockOnly", .bool blockOnly), ("erasedLen", .num (erased.length : Nat))]
+          ("blockOnly", .bool blockOnly), ("buildErased", .bool buildErased)]
   | _ => .obj [("error", .str "bad-op")]
 
 def main : IO Unit := Driver.run handleC12
